@@ -300,3 +300,11 @@ Example json_to_json_example :
   let inp := [32; 123; 34; 97; 34; 58; 91; 49; 101; 50; 44; 45; 48; 44; 34; 92; 117; 48; 48; 101; 57; 34; 93; 125; 10; 91; 93]%N in
   exists o, json_to_json_f inp = Some o /\ o <> inp.
 Proof. eexists. split; [vm_compute; reflexivity|discriminate]. Qed.
+
+(* one line per document of the INPUT, whatever its spacing and line breaks *)
+Theorem json_to_json_one_line_per_input_document inp o : json_to_json_f inp = Some o ->
+  count_occ N.eq_dec o 10%N = length (fst (json_slice inp)).
+Proof.
+  intros H. destruct (json_to_json_output _ _ H) as (vs & F & Es & ->).
+  rewrite Es. cbn [fst]. rewrite map_length. apply (one_line_per_document json_f64 json_f64_no_newline).
+Qed.
